@@ -298,7 +298,49 @@ impl H {
         }
     }
 
+    /// A rollover hands the sealed segment's three index files to a background thread.  A reopen inside one process
+    /// must not overlap with that thread (the old instance would still be writing the file the new one reads; what a
+    /// *partial* index file does to the next open is C06's subject, with the file states enumerated there), so wait
+    /// until every sealed segment's index files are non-empty and have stopped growing.
+    pub fn wait_sealed_indexes_settled(&self) {
+        let deadline = std::time::Instant::now() + Duration::from_secs(40);
+        let sizes = |dir: &Path| -> Option<Vec<u64>> {
+            let mut v = Vec::new();
+            for b in std::fs::read_dir(dir.join("buckets")).ok()?.flatten() {
+                let segs = b.path().join("segments");
+                let mut ids: Vec<String> = std::fs::read_dir(&segs).ok()?.flatten().filter_map(|e| e.file_name().to_str().map(String::from)).collect();
+                ids.sort();
+                ids.pop(); // the live segment's index files stay empty
+                for id in ids {
+                    for f in ["index.eidx", "partition.pidx", "stream.sidx"] {
+                        let len = std::fs::metadata(segs.join(&id).join(f)).map(|m| m.len()).unwrap_or(0);
+                        if len == 0 {
+                            return None;
+                        }
+                        v.push(len);
+                    }
+                }
+            }
+            Some(v)
+        };
+        let mut last: Option<Vec<u64>> = None;
+        let mut stable_since = std::time::Instant::now();
+        while std::time::Instant::now() < deadline {
+            let now = sizes(&self.dir);
+            if now.is_some() && now == last {
+                if stable_since.elapsed() >= Duration::from_millis(40) {
+                    return;
+                }
+            } else {
+                stable_since = std::time::Instant::now();
+                last = now;
+            }
+            std::thread::sleep(Duration::from_millis(4));
+        }
+    }
+
     pub fn reopen(&mut self) -> Result<(), String> {
+        self.wait_sealed_indexes_settled();
         self.shutdown();
         let cfg = self.cfg.clone();
         let dir = self.dir.clone();
